@@ -57,7 +57,7 @@ var opts = dbsim.Opts{Tables: 2, Txns: 30, MaxOps: 8, ProbesPerIndex: 1, AbortPc
 // within a snapshot, and is one of the revisions its writer has published (the latest one or a later one); meanwhile other
 // goroutines commit to other tables, create and close change iterators (tracker commits) and the collector runs every millisecond.
 func TestVerifRace_Sampler(t *testing.T) {
-	r := vkit.Start(t, "C09", "sampler-race", "exploration", "3 tables, one writer each (inserts/deletes/rejected compare-and-swaps/aborts), 3 samplers, iterator create/Next/close churn and the collector at 1 ms, delays injected at the hook points; "+
+	r := vkit.Start(t, "C09", "sampler-race", "exploration", "3 tables, one writer each (inserts/deletes/rejected compare-and-swaps/aborts), 3 samplers, iterator create/Next/close churn, a goroutine registering up to 400 further tables and the collector at 1 ms, delays injected at the hook points; "+
 		"per table the revision must be constant within a snapshot, non-decreasing across successive snapshots and never below the last revision its writer committed before the snapshot was taken; non-trivial = samples were compared; distinct = (seed, run)")
 	r.Require("samples", "commits_recorded")
 	ctl := hookctl.Install(vkit.Seed())
@@ -83,9 +83,13 @@ func TestVerifRace_Sampler(t *testing.T) {
 				wr := r.Rand(idx, uint64(ti)+1)
 				tb := tabs[ti]
 				h := db.NewHandle(fmt.Sprintf("c9-%d-w%d", idx, ti))
+				var lastCommitted uint64
 				for o := 0; o < 250; o++ {
 					w := h.WriteTxn(tb)
 					before := tb.Revision(w)
+					if before < lastCommitted {
+						r.Violation("rev/decreased-across-commits", idx, map[string]any{"message": fmt.Sprintf("table %d: a write transaction starts at revision %d after revision %d was committed (a committed state was overwritten)", ti, before, lastCommitted)})
+					}
 					for k := 0; k < 1+wr.IntN(3); k++ {
 						id := fmt.Sprint(wr.IntN(8))
 						switch wr.IntN(4) {
@@ -110,10 +114,24 @@ func TestVerifRace_Sampler(t *testing.T) {
 						r.Violation("rev/commit-snapshot", idx, map[string]any{"message": fmt.Sprintf("table %d: Commit's snapshot has revision %d, the transaction had %d", ti, got, after)})
 					}
 					committed[ti].Store(after)
+					lastCommitted = after
 					commits.Add(1)
 				}
 			}(ti)
 		}
+		// table registrations run into the commits (each stores a new root)
+		var registered atomic.Int64
+		wg.Add(1)
+		go func() {
+			defer wg.Done()
+			for k := 0; k < 400 && !stop.Load(); k++ {
+				if _, err := statedb.NewTable(db, fmt.Sprintf("c9x%d", k), concw.IDIndex); err != nil {
+					r.Violation("registration/error", idx, map[string]any{"message": err.Error()})
+					return
+				}
+				registered.Add(1)
+			}
+		}()
 		// iterator churn on all tables
 		wg.Add(1)
 		go func() {
@@ -194,6 +212,7 @@ func TestVerifRace_Sampler(t *testing.T) {
 		swg.Wait()
 		r.Count("samples", samples.Load())
 		r.Count("commits_recorded", commits.Load())
+		r.Count("tables_registered_during_run", registered.Load())
 		r.Case(uint64(idx), samples.Load() > 0)
 		if r.WantSample() {
 			r.Sample(map[string]any{"case": idx, "samples": samples.Load(), "commits": commits.Load()})
